@@ -172,4 +172,29 @@ func init() {
 		{Name: "setfeatures-length-before-zero-check", File: gene, Find: "\tif pos != 0 {\n\t\treturn errors.New(\"no transcript with 0 start on gene\")\n\t}\n\tg.length = end - pos\n", Replace: "\tg.length = end - pos\n\tif pos != 0 {\n\t\treturn errors.New(\"no transcript with 0 start on gene\")\n\t}\n", Rule: "commitlast", Key: "gene.(*Gene).SetFeatures/store length"},
 		{Name: "benign-append-to-clamped-slice", File: gene, Find: "\tnewSlice := make(Exons, 0, len(s)+len(exons))\n\tnewSlice = append(newSlice, s...)\n\tnewSlice = append(newSlice, exons...)\n", Replace: "\tnewSlice := append(s[:len(s):len(s)], exons...)\n"},
 	}
+	const (
+		filt = "align/pals/filter/filter.go"
+		kern = "align/pals/dp/kernel.go"
+		dpal = "align/pals/dp/align.go"
+	)
+	selftests["C14"] = []variant{
+		{Name: "threshold-formula-wrong-sign", File: filt, Find: "\treturn hitLength + 1 - wordLength*(maxErrors+1)\n", Replace: "\treturn hitLength + 1 - wordLength*(maxErrors-1)\n", Rule: "tables/ukkonen", Key: "filter.MinWordsPerFilterHit/formula"},
+		{Name: "threshold-formula-off-by-one", File: filt, Find: "\treturn hitLength + 1 - wordLength*(maxErrors+1)\n", Replace: "\treturn hitLength + 2 - wordLength*(maxErrors+1)\n", Rule: "tables/ukkonen", Key: "filter.MinWordsPerFilterHit/formula"},
+		{Name: "threshold-args-swapped", File: filt, Find: "MinWordsPerFilterHit(f.minMatch, f.k, f.maxError)", Replace: "MinWordsPerFilterHit(f.minMatch, f.maxError, f.k)", Rule: "tables/ukkonen", Key: "call#1-roles"},
+		{Name: "restart-emits-exclusive", File: filt, Find: "\tif q-tube.QHi > f.maxKmerDist {\n\t\tif tube.Count >= f.minKmersPerHit {", Replace: "\tif q-tube.QHi > f.maxKmerDist {\n\t\tif tube.Count > f.minKmersPerHit {", Rule: "emitguard", Key: "filter.(*Filter).hitTube/addHit"},
+		{Name: "flush-skips-at-threshold", File: filt, Find: "\tif tube.Count < f.minKmersPerHit {\n\t\treturn nil\n\t}\n", Replace: "\tif tube.Count <= f.minKmersPerHit {\n\t\treturn nil\n\t}\n", Rule: "emitguard", Key: "filter.(*Filter).tubeFlush/addHit"},
+		{Name: "tube-end-threshold-plus-one", File: filt, Find: "\ttube := &f.tubes[tubeIndex%cap(f.tubes)]\n\n\tif tube.Count >= f.minKmersPerHit {\n\t\terr := f.addHit(tubeIndex, tube.QLo, tube.QHi)\n\t\tif err != nil {\n\t\t\treturn err\n\t\t}\n\t}\n\n\ttube.Count = 0", Replace: "\ttube := &f.tubes[tubeIndex%cap(f.tubes)]\n\n\tif tube.Count >= f.minKmersPerHit+1 {\n\t\terr := f.addHit(tubeIndex, tube.QLo, tube.QHi)\n\t\tif err != nil {\n\t\t\treturn err\n\t\t}\n\t}\n\n\ttube.Count = 0", Rule: "emitguard", Key: "filter.(*Filter).tubeEnd/addHit"},
+		{Name: "restart-without-emission-test", File: filt, Find: "\tif q-tube.QHi > f.maxKmerDist {\n\t\tif tube.Count >= f.minKmersPerHit {\n\t\t\terr := f.addHit(tubeIndex, tube.QLo, tube.QHi)\n\t\t\tif err != nil {\n\t\t\t\treturn err\n\t\t\t}\n\t\t}\n\n\t\ttube.Count = 1", Replace: "\tif q-tube.QHi > f.maxKmerDist {\n\t\tif q-tube.QLo < f.minMatch && tube.Count >= f.minKmersPerHit {\n\t\t\terr := f.addHit(tubeIndex, tube.QLo, tube.QHi)\n\t\t\tif err != nil {\n\t\t\t\treturn err\n\t\t\t}\n\t\t}\n\n\t\ttube.Count = 1", Rule: "emitguard", Key: "filter.(*Filter).hitTube/reset-Count#2"},
+		{Name: "benign-threshold-via-local", File: filt, Find: "\treturn hitLength + 1 - wordLength*(maxErrors+1)\n", Replace: "\twords := hitLength + 1\n\tlost := wordLength * (1 + maxErrors)\n\treturn words - lost\n"},
+		{Name: "benign-flush-positive-form", File: filt, Find: "\tif tube.Count < f.minKmersPerHit {\n\t\treturn nil\n\t}\n\n\terr := f.addHit(tubeIndex, tube.QLo, tube.QHi)\n\tif err != nil {\n\t\treturn err\n\t}\n\ttube.Count = 0\n\n\treturn nil", Replace: "\tif f.minKmersPerHit <= tube.Count {\n\t\terr := f.addHit(tubeIndex, tube.QLo, tube.QHi)\n\t\tif err != nil {\n\t\t\treturn err\n\t\t}\n\t\ttube.Count = 0\n\t}\n\n\treturn nil"},
+	}
+	selftests["C15"] = []variant{
+		{Name: "length-test-or", File: kern, Find: "if k.highEnd.Bepos-k.highEnd.Bbpos >= k.minLen && k.highEnd.Aepos-k.highEnd.Abpos >= k.minLen {", Replace: "if k.highEnd.Bepos-k.highEnd.Bbpos >= k.minLen || k.highEnd.Aepos-k.highEnd.Abpos >= k.minLen {", Rule: "emitguard", Key: "alignRecursion/send#1/"},
+		{Name: "length-test-one-sequence-only", File: kern, Find: "if k.highEnd.Bepos-k.highEnd.Bbpos >= k.minLen && k.highEnd.Aepos-k.highEnd.Abpos >= k.minLen {", Replace: "if k.highEnd.Bepos-k.highEnd.Bbpos >= k.minLen {", Rule: "emitguard", Key: "alignRecursion/send#1/Aepos-Abpos>=minLen"},
+		{Name: "identity-test-removed", File: kern, Find: "\t\tif identity <= k.maxDiff {\n\t\t\tk.highEnd.Error = identity\n", Replace: "\t\tif identity <= 1 {\n\t\t\tk.highEnd.Error = identity\n", Rule: "emitguard", Key: "alignRecursion/send#1/identity<=maxDiff"},
+		{Name: "error-field-not-the-tested-value", File: kern, Find: "\t\t\tk.highEnd.Error = identity\n", Replace: "\t\t\tk.highEnd.Error = identity / 2\n", Rule: "emitguard", Key: "alignRecursion/send#1/Error=identity"},
+		{Name: "maxdiff-wired-as-minid", File: dpal, Find: "\t\tmaxDiff:     1 - a.minId,\n", Replace: "\t\tmaxDiff:     a.minId,\n", Rule: "emitguard", Key: "AlignTraps/wire-maxDiff"},
+		{Name: "minlen-wired-from-k", File: dpal, Find: "\t\tminLen:      a.minHitLength,\n", Replace: "\t\tminLen:      a.k,\n", Rule: "emitguard", Key: "AlignTraps/wire-minLen"},
+		{Name: "benign-nested-ifs", File: kern, Find: "if k.highEnd.Bepos-k.highEnd.Bbpos >= k.minLen && k.highEnd.Aepos-k.highEnd.Abpos >= k.minLen {", Replace: "if k.highEnd.Bepos-k.highEnd.Bbpos < k.minLen {\n\t} else if k.minLen <= k.highEnd.Aepos-k.highEnd.Abpos {"},
+	}
 }
